@@ -18,6 +18,14 @@ func init() {
 			Old: `		SrcHost:  req.SrcHost,
 		DstHost:  req.DstHost,`, New: `		SrcHost:  req.DstHost,
 		DstHost:  req.SrcHost,`, Expect: "X1-validated-request-is-derived-meta"},
+		Mutant{Prop: "C40", Name: "ashost-response-epoch-ends-at-begin", File: "control/drkey/grpc/protobuf.go",
+			Old: `func keyToASHostResp(drkey drkey.ASHostKey) *cppb.DRKeyASHostResponse {
+	return &cppb.DRKeyASHostResponse{
+		EpochBegin: timestamppb.New(drkey.Epoch.NotBefore),
+		EpochEnd:   timestamppb.New(drkey.Epoch.NotAfter),`, New: `func keyToASHostResp(drkey drkey.ASHostKey) *cppb.DRKeyASHostResponse {
+	return &cppb.DRKeyASHostResponse{
+		EpochBegin: timestamppb.New(drkey.Epoch.NotBefore),
+		EpochEnd:   timestamppb.New(drkey.Epoch.NotBefore),`, Expect: "X2-response-is-the-derived-key"},
 	)
 }
 
@@ -64,6 +72,22 @@ func c40Converters(c *Ctx) {
 			fmt.Sprintf("%d meta members from the request members of the same name: %s", len(members), strings.Join(bad, "; ")))
 	}
 	c.Min("drkey-request-converters", n, 3)
+	// the answer carries the key it was derived for: epoch bounds and key bytes of
+	// the derived key, nothing else (seven response encoders)
+	pb := "google.golang.org/protobuf/types/known/timestamppb."
+	nResp := 0
+	for _, fnName := range []string{"secretToProtoResp", "keyToLevel1Resp", "keyToASASResp", "keyToASHostResp", "keyToHostASResp", "keyToHostHostResp"} {
+		v := c.View(pk + fnName)
+		if v == nil {
+			continue
+		}
+		nResp++
+		r2 := "X2-response-is-the-derived-key"
+		v.RequireStore(r2, 1, "local:complit.EpochBegin", pb+"New(local:drkey.Epoch.NotBefore)", pb+"New(arg0.Epoch.NotBefore)")
+		v.RequireStore(r2, 1, "local:complit.EpochEnd", pb+"New(local:drkey.Epoch.NotAfter)", pb+"New(arg0.Epoch.NotAfter)")
+		v.RequireStore(r2, 1, "local:complit.Key", "local:drkey.Key[:]", "arg0.Key[:]")
+	}
+	c.Min("drkey-response-encoders", nResp, 6)
 	// each handler derives from the meta built from the request it validated
 	for h, conv := range map[string]string{"DRKeyASHost": "requestToASHostMeta", "DRKeyHostAS": "requestToHostASMeta", "DRKeyHostHost": "requestToHostHostMeta"} {
 		v := c.View("(*" + pk + "Server)." + h)
